@@ -396,6 +396,9 @@ class Gen:
         if self.r.random() < self.cfg.get("p_nonbool_cond", 0):
             # a raw secret integer of any value as the condition: with the checks on, entering the region is refused
             cond = self.operand("I", 0)
+        elif self.r.random() < self.cfg.get("p_plain_cond", 0):
+            # a PUBLIC condition (generic code called with a plain value): 1 is transparent, 0 is refused
+            cond = {"k": self.r.choice(self.cfg.get("plain_conds", [1, 1, 0])), "t": "I"}
         st = {"s": "guarded", "cond": cond}
         if self.depth >= 1 and self.r.random() < 0.2:
             st["reuse_outer"] = True      # nested region entered through the enclosing region's decorator object
@@ -734,16 +737,20 @@ class CodeGen:
         def body():
             if reuse:
                 # the enclosing region's decorator object (and condition) is applied again
-                outer_g, outer_c = self.deco_stack[-1]
+                outer_g, outer_c, outer_pub = self.deco_stack[-1]
                 self.emit("%s = %s" % (cnm, outer_c))
             else:
                 self.emit("%s = %s" % (cnm, csrc))
-            self.emit("%s = [__cv__(%s)]" % (mnm, cnm))
+            public = (outer_pub if reuse else "k" in s["cond"])
+            if public:
+                self.emit("%s = []" % mnm)       # a public condition is no factor of the guard
+            else:
+                self.emit("%s = [__cv__(%s)]" % (mnm, cnm))
             if self.mode != "unguarded":
                 self.emit("%s = %s" % (gnm, outer_g if reuse else "guarded(%s)" % cnm))
             self.regions.append(mnm)
             self.region_ids.append((rid, "t"))
-            self.deco_stack.append((gnm, cnm))
+            self.deco_stack.append((gnm, cnm, public))
             self.region_body(s["body"], fname)
             self.deco_stack.pop()
             self.region_ids.pop()
@@ -918,6 +925,11 @@ class CodeGen:
         # and leaves through os._exit with the child's status
         "fork_worker": ["_pid = os.fork()", "if _pid:", "    os._exit(os.waitstatus_to_exitcode(os.waitpid(_pid, 0)[1]))"],
     }
+
+    def st_setenv(self, s):
+        # the program sets an environment variable after the library has been imported
+        self.emit("__setenv__(%r, %r)" % (s["name"], s["value"]))
+        self.step({"kind": "setenv"})
 
     def st_chdir(self, s):
         # the script changes its working directory in the middle of the run
@@ -1118,6 +1130,9 @@ class CodeGen:
             return self.var(v["t"], v["ref"])
         if v.get("enum"):
             return "__E__.%s" % v["enum"]        # an int subclass (IntEnum member): still a numeric argument
+        if isinstance(v["k"], str) and v["k"].startswith(("bytes:", "bytearray:")):
+            kind, _, hx = v["k"].partition(":")
+            return "%s(bytes.fromhex(%r))" % (kind, hx)        # a bytes-like leaf (tag, nonce): one opaque object
         return repr(v["k"])
 
     def snark_leaf_ret(self, v):
